@@ -1,6 +1,6 @@
 (** C05 — ALL returns exactly the optimal solutions, ANY returns one of them.
-    Proved here for the general DTL solver (inside the coherent region) and the exhaustive
-    solver (any costs). *)
+    General DTL solver (inside the coherent region), exhaustive solver (any costs), base/extended
+    SPFS and USPFS (inside their coherent regions). *)
 From Coq Require Import List Bool ZArith.
 From SR Require Import Base.PathB Base.Ext Model.Entry Model.Recon Model.Thl
   Proofs.PathFacts Proofs.ReconProofs Proofs.DpProofs Proofs.ExhProofs Proofs.ThlProofs Proofs.ThlFinal.
@@ -100,3 +100,96 @@ Theorem C05_uspfs_any : forall S c extended O, nn (c_hgt c) -> ucoherent c -> le
   exists E t, uspfs S c RANY extended O = Some E /\ tags E = [t] /\ uoptimal S c extended O t.
 Proof. exact uspfs_any. Qed.
 Print Assumptions C05_uspfs_any.
+
+(** ** reader-facing corollaries (Proofs/AllAnyProofs.v) *)
+From SR Require Import Proofs.AllAnyProofs.
+
+(* unordered solvers, the English of the property: ALL = exactly the CANONICAL solutions ([usol]: valid,
+   every node holds its required families or its parent's families plus its own gains; base variant: on
+   the LCA mapping) whose cost is minimal among ALL valid labellings ([uall_sol]: canonical or not), each once.
+   ([C03_canonical_suffices] chained with [C03_superdtl_optimum]: the canonical minimum is the global one.) *)
+Theorem C05_uspfs_all_exact_global : forall S c extended O, nn (c_hgt c) -> ucoherent c -> leaves_ok S O ->
+  exists E, uspfs S c RALL extended O = Some E /\ NoDup (tags E) /\
+    forall t, In t (tags E) <->
+      (usol S extended O t /\ forall t', uall_sol S extended O t' -> ele (ucost c O t) (ucost c O t')).
+Proof. exact uspfs_all_exact_global. Qed.
+Print Assumptions C05_uspfs_all_exact_global.
+
+(* labelled solvers: the ANY result is a member of the ALL result (empty together) *)
+Theorem C05_spfs_any_in_all : forall S c extended orders O, nn (c_hgt c) -> orders_ok S O orders -> coherent_ord c ->
+  exists ea el, spfs S c RANY extended orders O = Some ea /\ spfs S c RALL extended orders O = Some el /\
+    ((tags ea = [] /\ tags el = [] /\ forall lt, ~ sol S extended orders O lt) \/
+     exists lt, tags ea = [lt] /\ In lt (tags el)).
+Proof. exact spfs_any_in_all. Qed.
+Print Assumptions C05_spfs_any_in_all.
+
+Theorem C05_uspfs_any_in_all : forall S c extended O, nn (c_hgt c) -> ucoherent c -> leaves_ok S O ->
+  exists Ea El t, uspfs S c RANY extended O = Some Ea /\ uspfs S c RALL extended O = Some El /\
+    tags Ea = [t] /\ In t (tags El).
+Proof. exact uspfs_any_in_all. Qed.
+Print Assumptions C05_uspfs_any_in_all.
+
+(* labelled solvers: all returned solutions have the same cost (any policy, any unit costs) *)
+Theorem C05_spfs_all_same_cost : forall S c rp extended orders O e lt lt', nn (c_hgt c) -> orders_ok S O orders ->
+  spfs S c rp extended orders O = Some e -> In lt (tags e) -> In lt' (tags e) ->
+  total_cost c O true lt = total_cost c O true lt'.
+Proof. exact spfs_all_same_cost. Qed.
+Print Assumptions C05_spfs_all_same_cost.
+
+Theorem C05_uspfs_all_same_cost : forall S c rp extended O E t t', nn (c_hgt c) -> leaves_ok S O ->
+  uspfs S c rp extended O = Some E -> In t (tags E) -> In t' (tags E) ->
+  total_cost c O false t = total_cost c O false t' /\ ucost c O t = ucost c O t' /\ ucost c O t = val E.
+Proof. exact uspfs_all_same_cost. Qed.
+Print Assumptions C05_uspfs_all_same_cost.
+
+(* plain solvers: the ANY result for ANY order in which the final candidates are enumerated (the model
+   fixes pre-order; the code uses another order): still one solution, a member of the ALL set *)
+Theorem C05_thl_any_order_in_all : forall S c O order, C05_costs c -> leaves_ok S O ->
+  Permutation.Permutation order (snodes S) ->
+  exists r, tags (reconcile_thl_order order S c RANY O) = [r] /\ optimal S c O r /\
+            In r (tags (reconcile_thl S c RALL O)).
+Proof. intros S c O order [Hh [Hf Hc]] L P. exact (thl_any_order S c O order Hh Hf Hc L P). Qed.
+Print Assumptions C05_thl_any_order_in_all.
+
+Theorem C05_exh_any_order_in_all : forall S c O l, leaves_ok S O -> Permutation.Permutation l (gen_all O) ->
+  exists r, tags (reconcile_exhaustive_order l c RANY O) = [r] /\ optimal S c O r /\
+            In r (tags (reconcile_exhaustive c RALL O)).
+Proof. exact exh_any_order. Qed.
+Print Assumptions C05_exh_any_order_in_all.
+
+(** ** non-vacuity: every hypothesis set used in this file is satisfiable, on instances with several
+    optimal solutions *)
+Example C05_example_plain :
+  let S := SNode SLeaf (SNode SLeaf (SNode SLeaf SLeaf)) in
+  let O := ONode (OLeaf [false] []) (ONode (OLeaf [true; true; true] [])
+                 (ONode (OLeaf [true; false] []) (OLeaf [true; true; false] []))) in
+  let c := {| c_spe := 0; c_dup := 1; c_hgt := Fin 1; c_floss := 1; c_sloss := 1 |} in
+  C05_costs c /\ leaves_ok S O /\
+  length (tags (reconcile_thl S c RALL O)) = 4%nat /\ length (tags (reconcile_thl S c RANY O)) = 1%nat /\
+  length (tags (reconcile_exhaustive c RALL O)) = 4%nat /\ length (tags (reconcile_exhaustive c RANY O)) = 1%nat /\
+  Permutation.Permutation (rev (snodes S)) (snodes S) /\
+  length (tags (reconcile_thl_order (rev (snodes S)) S c RANY O)) = 1%nat.
+Proof.
+  cbv zeta. split; [unfold C05_costs, nn; simpl; repeat split; (discriminate || Lia.lia)|].
+  split; [cbn; tauto|]. repeat split; try (vm_compute; reflexivity).
+  apply Permutation.Permutation_sym, Permutation.Permutation_rev.
+Qed.
+
+(* ordered: [nn], [coherent_ord], [orders_ok] (from [leaves_wf] and the enumerated root orders), 3 optimal
+   solutions (extended) / 1 (base) *)
+Example C05_example_ordered :
+  let S := SNode SLeaf (SNode SLeaf SLeaf) in
+  let O := ONode (OLeaf [false] [1; 2]%N) (ONode (OLeaf [true; false] [2; 3]%N) (OLeaf [true; true] [1; 3]%N)) in
+  let c := {| c_spe := 0; c_dup := 1; c_hgt := Fin 1; c_floss := 1; c_sloss := 1 |} in
+  nn (c_hgt c) /\ coherent_ord c /\ orders_ok S O [[1; 2; 3]%N] /\
+  option_map (fun e => (val e, length (tags e))) (spfs S c RALL true [[1; 2; 3]%N] O) = Some (Fin 3, 3%nat) /\
+  option_map (fun e => (val e, length (tags e))) (spfs S c RANY true [[1; 2; 3]%N] O) = Some (Fin 3, 1%nat) /\
+  option_map (fun e => (val e, length (tags e))) (spfs S c RALL false [[1; 2; 3]%N] O) = Some (Fin 3, 1%nat).
+Proof.
+  cbv zeta. split; [discriminate|]. split; [unfold coherent_ord; cbn; Lia.lia|].
+  split; [|repeat split; vm_compute; reflexivity].
+  refine (proj1 (root_orders_ok _ _ _ _ _)); [cbn; repeat split; discriminate|vm_compute; reflexivity].
+Qed.
+
+(* unordered: [nn], [ucoherent], [leaves_ok] *)
+Example C05_example_unordered := uspfs_example.
